@@ -289,3 +289,4 @@ def run(ctx):
     ctx.borrow("C10", {"C10.R4": "C09.R8"}, "un-hinted selection is gated by the validators: a record validator that sees another value than the writer writes selects a branch the datum is not encoded under")
 
 
+    ctx.borrow("C10", {"C10.R2": "C09.R9"}, "an un-hinted value is written under the first branch validate accepts: a container validator that accepts without consulting every element makes the writer pick a branch the value does not conform to", only=lambda o: any(k in o.get("instance", "") for k in ("_validate_array", "_validate_map", "_validate_record", "_validate_union", "_validate:")))
